@@ -7,7 +7,7 @@
                        ([eval] reduces intermediate results with Qred, hence Qeq and not eq);
      qsum l            the sum of a list of rationals. *)
 From Coq Require Import QArith List Bool PArith Arith Permutation.
-From PV Require Import Base.PyData Base.Expr C05.Model C05.Proofs.
+From PV Require Import Base.PyData Base.Expr C05.Model C05.ToCs C05.Proofs.
 Import ListNotations.
 Local Open Scope nat_scope.
 
@@ -214,3 +214,51 @@ Theorem update_node_order : forall g c c',
   WF g -> names_unique (comps g) = true -> In (Cmt c) (nodes g) -> c_name c' = c_name c ->
   nodes (relabel g [(Cmt c, Cmt c')]) = (if comp_eqb c' c then nodes g else without (Cmt c) (nodes g) ++ [Cmt c']).
 Proof. exact relabel_same_name_unique. Qed.
+
+(* Two compartments relabelled by one call (what move_dose does): every flow is kept, whichever of the two
+   comes first in the node order.  [ren2 s s' d d'] renames s to s' and d to d'. *)
+Theorem relabel_two_preserves_edges : forall g s s' d d' u v,
+  WF g -> In s (nodes g) -> In d (nodes g) -> s <> d -> s <> Out -> d <> Out -> s' <> Out -> d' <> Out ->
+  (s' = s \/ ~ In s' (nodes g)) -> (d' = d \/ ~ In d' (nodes g)) -> s' <> d' ->
+  In u (nodes g) -> In v (nodes g) ->
+  get_flow (relabel g [(s, s'); (d, d')]) (ren2 s s' d d' u) (ren2 s s' d d' v) = get_flow g u v.
+Proof. exact relabel_two_flows. Qed.
+
+(* move_dose (all doses, or the doses of one admid; source = destination included): source and destination
+   are replaced by copies that differ only in their doses (same name, amount, input, lag time,
+   bioavailability), every other node is literally unchanged, and every flow of the system is kept.
+   Together with update_ops_preserve_flows this covers set_dose / add_dose / remove_dose / move_dose. *)
+Theorem move_dose_preserves_flows : forall g sn dn admid src dst g',
+  WF g -> names_unique (comps g) = true ->
+  find_compartment g sn = Some src -> find_compartment g dn = Some dst ->
+  apply_op g (OMoveDose sn dn admid) = (g', None) ->
+  exists src' dst',
+    (c_name src' = c_name src /\ c_amount src' = c_amount src /\ c_input src' = c_input src /\
+     c_lag src' = c_lag src /\ c_bio src' = c_bio src) /\
+    (c_name dst' = c_name dst /\ c_amount dst' = c_amount dst /\ c_input dst' = c_input dst /\
+     c_lag dst' = c_lag dst /\ c_bio dst' = c_bio dst) /\
+    (forall n, In n (nodes g) -> n <> Cmt src -> n <> Cmt dst -> ren2 (Cmt src) (Cmt src') (Cmt dst) (Cmt dst') n = n) /\
+    (forall u v, In u (nodes g) -> In v (nodes g) ->
+       get_flow g' (ren2 (Cmt src) (Cmt src') (Cmt dst) (Cmt dst') u) (ren2 (Cmt src) (Cmt src') (Cmt dst) (Cmt dst') v)
+       = get_flow g u v).
+Proof. exact move_dose_preserves_flows_lemma. Qed.
+
+(* ---- to_compartmental_system (model C05/ToCs.v) ------------------------------------------------------------------- *)
+(* Round trip through the differential equations, PARTIAL (bounded): for every system on at most three
+   compartments — every set of flows between them, every set of output flows, every set of zero-order
+   inputs, no dose / one dose / two doses — whose rates and inputs are pairwise distinct symbols, the system
+   rebuilt by to_compartmental_system from the expanded equations has the same names, amounts, flows between
+   compartments, flows to output and inputs ([same_flows]); doses, lag times and bioavailabilities are not
+   in the equations and are not recovered.  12492 systems, closed by vm_compute.  Missing for the full
+   statement [linear_distinct g -> same_flows g (rebuilt g)]: arbitrary size and arbitrary distinct rate
+   expressions (checked on the implementation by oracle tag 20 and on the model by tag 9). *)
+Theorem odes_roundtrip_partial : forall s,
+  In s all_shapes ->
+  let g := shape_graph s in
+  WF g /\ linear_distinct g = true /\ same_flows g (rebuilt g) (order g) = true.
+Proof. exact odes_roundtrip_bounded_lemma. Qed.
+
+(* when the amounts of the system are the functions of the default independent variable that
+   Compartment.create makes, to_compartmental_system builds exactly [rebuilt g] *)
+Theorem rebuilt_default_idv : forall amt_t g, g_default_idv amt_t g = true -> rebuilt_with amt_t g = rebuilt g.
+Proof. exact rebuilt_with_default. Qed.
